@@ -206,7 +206,7 @@ func checkC11(c *Ctx) {
 
 	// ---- O3 locks ---------------------------------------------------------------------------------
 	eng := c.newLockEngine()
-	c.checkFieldDiscipline("O3 field-discipline", []string{""}, eng)
+	c.checkFieldDiscipline("O3 field-discipline", []string{""}, eng, 40)
 
 	// ---- O4 test scopes are not pruned ---------------------------------------------------------------
 	fTest := c.field("", "scope", "testScope")
@@ -264,7 +264,7 @@ func checkC11(c *Ctx) {
 		if okAll && n > 0 {
 			c.ok("O4 test-scope-exempt", c.fnKey(sub), sub.Pos(), fmt.Sprintf("all %d removal/clear sites of the re-acquire path are reachable only for non-test scopes", n))
 		}
-		c.floor("O4 test-scope-exempt", n, 3)
+		c.floor("O4 test-scope-exempt", n, 1)
 	}
 }
 
